@@ -204,6 +204,55 @@ Section Proxy.
     end.
 End Proxy.
 
+(* Ways of reading a feature object besides indexing *)
+Inductive access :=
+| AIndex (ix : index)     (* obj[ix] *)
+| AIter                   (* [v for v in obj]: obj[0], obj[1], ... until
+                             IndexError (no __iter__ is defined) *)
+| AArray.                 (* np.array(obj): obj.__array__() *)
+
+Section ProxyAccess.
+  Variable A : Type.
+  Variable feat : list A.
+  Variable bmap : list Z.
+  Variable is_scalar : bool.
+
+  (* legacy iteration protocol: any IndexError ends the iteration *)
+  Fixpoint proxy_iter (fuel : nat) (i : Z) (cache : option (list A))
+    : option (list A) * list A :=
+    match fuel with
+    | O => (cache, [])
+    | S fu =>
+        let '(c', r) := proxy_getitem A feat bmap is_scalar cache (IInt i) in
+        match r with
+        | ROne a => let '(c'', rest) := proxy_iter fu (i + 1) c' in
+                    (c'', a :: rest)
+        | _ => (c', [])
+        end
+    end.
+
+  Definition proxy_access (cache : option (list A)) (ac : access)
+    : option (list A) * res A :=
+    match ac with
+    | AIndex ix => proxy_getitem A feat bmap is_scalar cache ix
+    | AIter => let '(c', l) := proxy_iter (S (length bmap)) 0 cache in
+               (c', RMany l)
+    | AArray =>
+        (* ragged features (fixed code): array of objects filled by the
+           same per-index loop *)
+        let '(c', arr) := proxy_array A feat bmap is_scalar cache in
+        (c', match arr with Some l => RMany l | None => RErr end)
+    end.
+End ProxyAccess.
+
+(* stored data (h5py backed or numpy) *)
+Definition direct_access {A} (d : list A) (ac : access) : res A :=
+  match ac with
+  | AIndex ix => np_index d ix
+  | AIter => RMany d
+  | AArray => RMany d
+  end.
+
 (* ------------------------------------------------------------------ *)
 (* files, basin definitions, store_basin                               *)
 (* ------------------------------------------------------------------ *)
@@ -576,12 +625,45 @@ Definition export (st : store) (src : nat) (pfilts : list (list bool))
                   f_slots := slots0; f_basins := [] |} blist'))))))).
 
 (* ------------------------------------------------------------------ *)
+(* copier.rtdc_copy / basin_definition_copy (compress, repack)         *)
+(* ------------------------------------------------------------------ *)
+Definition has_key (f : Z) (l : fdata) : bool :=
+  match assoc f l with Some _ => true | None => false end.
+
+(* one basin dict in basin_definition_copy: internal basins are rewritten to
+   the features that are copied (dropped when none is), others are copied *)
+Definition copy_basin (innate : fdata) (keep : list Z) (b : bdef)
+  : list bdef :=
+  if b_internal b then
+    let feats := match b_feats b with Some l => l | None => [] end in
+    let used := filter (fun f => zmem f keep) feats in
+    match used with
+    | [] => []
+    | _ => [{| b_internal := true; b_target := b_target b;
+               (* basin_events: only features in feature_iter that are not
+                  already copied from "events" *)
+               b_int := filter (fun kv => zmem (fst kv) keep
+                                          && negb (has_key (fst kv) innate))
+                               (b_int b);
+               b_slot := b_slot b; b_feats := Some used |}]
+    end
+  else [b].
+
+(* keep = feature_iter (the basinmap features are always included) *)
+Definition copy_file (fl : file) (keep : list Z) : file :=
+  {| f_n := f_n fl;
+     f_innate := filter (fun kv => zmem (fst kv) keep) (f_innate fl);
+     f_slots := f_slots fl;
+     f_basins := flat_map (copy_basin (f_innate fl) keep) (f_basins fl) |}.
+
+(* ------------------------------------------------------------------ *)
 (* pipelines                                                           *)
 (* ------------------------------------------------------------------ *)
 Inductive step :=
 | SWrite (n : Z) (innate : fdata) (sbs : list sbasin)
 | SExport (src : Z) (pfilts : list (list bool)) (filt : list bool)
-          (feats : option (list Z)).
+          (feats : option (list Z))
+| SCopy (src : Z) (keep : list Z).
 
 Definition sb_sources (sb : sbasin) : list nat :=
   match sb with
@@ -603,6 +685,11 @@ Definition run_step (st : store) (s : step) : store :=
              else None
          | SExport src pfilts filt feats =>
              export st (Z.to_nat src) pfilts filt feats
+         | SCopy src keep =>
+             match get_file st (Z.to_nat src) with
+             | Some fl => Some (copy_file fl keep)
+             | None => None
+             end
          end].
 
 Definition run_steps (steps : list step) : store :=
@@ -622,26 +709,26 @@ Definition caches := list (Z * option (list Z)).
 
 Definition ckey (fid f : Z) : Z := fid * 16 + f.
 
-Definition run_query (st : store) (cs : caches) (q : Z * Z * index)
+Definition run_query (st : store) (cs : caches) (q : Z * Z * access)
   : caches * list Z :=
-  let '(fid, f, ix) := q in
+  let '(fid, f, ac) := q in
   match get_file st (Z.to_nat fid) with
   | None => (cs, [5])
   | Some _ =>
       match lookup (fuel_of st) st (Z.to_nat fid) f with
       | None => (cs, [3])
-      | Some (ODirect d) => (cs, enc (np_index d ix))
+      | Some (ODirect d) => (cs, enc (direct_access d ac))
       | Some (OProxy d m) =>
           let c := match assoc (ckey fid f) cs with
                    | Some c => c
                    | None => None
                    end in
-          let '(c', r) := proxy_getitem Z d m (is_scalar_feat f) c ix in
+          let '(c', r) := proxy_access Z d m (is_scalar_feat f) c ac in
           ((ckey fid f, c') :: cs, enc r)
       end
   end.
 
-Fixpoint run_queries (st : store) (cs : caches) (qs : list (Z * Z * index))
+Fixpoint run_queries (st : store) (cs : caches) (qs : list (Z * Z * access))
   : list (list Z) :=
   match qs with
   | [] => []
@@ -649,7 +736,7 @@ Fixpoint run_queries (st : store) (cs : caches) (qs : list (Z * Z * index))
               out :: run_queries st cs' r
   end.
 
-Definition run_flat (c : list step * list (Z * Z * index)) : list (list Z) :=
+Definition run_flat (c : list step * list (Z * Z * access)) : list (list Z) :=
   run_queries (run_steps (fst c)) [] (snd c).
 
 (* ------------------------------------------------------------------ *)
